@@ -23,6 +23,7 @@ def run_check(prop: str, tier: str, root: str) -> int:
     except ModuleNotFoundError:
         print(f"ANALYSIS-ERROR property={prop}: no rule module")
         return 2
+    ck = None
     try:
         repo = Repo(root)
         ck = Check(prop, tier, root)
@@ -34,6 +35,14 @@ def run_check(prop: str, tier: str, root: str) -> int:
             mod.run_thorough(ck, repo)
         return ck.finish()
     except AnalysisError as e:
+        # violations established before the analysis got stuck stand; otherwise the run is analysis-broken
+        try:
+            if ck is not None and any(o.status == "violated" for o in ck.obs):
+                print(f"ANALYSIS-INCOMPLETE property={prop}: {e} (violations found before that point are reported)")
+                ck.not_decided.append(f"analysis incomplete on this tree: {e}")
+                return ck.finish()
+        except AnalysisError:
+            pass
         print(f"ANALYSIS-ERROR property={prop}: {e}")
         return 2
     except Exception:  # a traceback must never look like a violation
